@@ -29,11 +29,39 @@ ASSUMPTIONS = ['destination kinds outside the model (containers other than vecto
 
 
 def gen_cases(tier, rng):
-    n = 1200 if tier == 'quick' else 12000
+    n = 1600 if tier == 'quick' else 12000
     cases = []
     stats = {}
     # corpus: pinned-tree witnesses first
     cases.append('H:f=0 arg:l,left:b0:init=0/excl=r arg:r,right:b1:init=0 argv:2d6c,2d2d7269676874 exp:reject mut:excluded-after')
+    # exhaustive small scope for the value constraints: differ over 2..4 int arguments in every list order of a
+    # rotation, every subset used, every choice of an equal pair (reject) and all distinct (accept); disjoint over
+    # two vectors with the common element at every position
+    import itertools
+    names = ['p', 'b', 'q', 'r']
+    for k in (2, 3, 4):
+        for rot in range(k):
+            order = names[rot:k] + names[:rot]
+            defs = ' '.join('arg:%s:i%d:' % (nm, j) for j, nm in enumerate(names[:k]))
+            con = 'con:differ:' + ';'.join(order)
+            for used in itertools.product([0, 1], repeat=k):
+                idx = [j for j in range(k) if used[j]]
+                if not idx:
+                    continue
+                vals = {j: 10 + j for j in idx}
+                w = [x for j in idx for x in ('-' + names[j], str(vals[j]))]
+                exp = ';'.join('i%d=%d' % (j, vals.get(j, 0)) for j in range(k))
+                cases.append('H:f=0 %s %s %s exp:%s mut:none' % (defs, con, A.argv_tok(w), exp))
+                for (x, y) in itertools.combinations(idx, 2):
+                    v2 = dict(vals); v2[y] = v2[x]
+                    w = [z for j in idx for z in ('-' + names[j], str(v2[j]))]
+                    cases.append('H:f=0 %s %s %s exp:reject mut:break-value-constraint' % (defs, con, A.argv_tok(w)))
+    for la, lb in itertools.product([[1], [3, 1], [1, 3], [5, 3, 1], [3, 5, 1, 4]], [[1], [2, 1], [1, 2], [9, 8, 1], [7]]):
+        w = ['-a', ','.join(map(str, la)), '-b', ','.join(map(str, lb))]
+        common = set(la) & set(lb)
+        exp = 'reject' if common else 'vi0=[%s];vi1=[%s]' % (','.join(map(str, la)), ','.join(map(str, lb)))
+        cases.append('H:f=0 arg:a:vi0: arg:b:vi1: con:disjoint:a;b %s exp:%s mut:%s'
+                     % (A.argv_tok(w), exp, 'break-value-constraint' if common else 'none'))
     guard = 0
     while len(cases) < n and guard < n * 30:
         guard += 1
